@@ -115,6 +115,15 @@ CLAIMED = {
        "path through openAndCheck runs Check unless do-check is off.",
   note="Assumed: Readdirnames/ReadDir enumerate exactly the entries. The validity-preservation statement over histories is the induction over the per-operation entry clauses of C01.",
   design="3 C16"),
+ "C18": dict(
+  text="Deductive proof of the loader with an inductive loop invariant over the parameter-set list: an accepted configuration has a non-empty base dir, every entry an id > 0 and exactly one algorithm, "
+       "no set 0, a default that names a stored set (or no sets at all), and every stored set is a constructor result (argon2id: time >= 1 and threads >= 1; scrypt: 32-byte key, cost <= 31) - which is "
+       "exactly the precondition under which argon2.IDKey cannot panic, proved as call-site obligations inside Generate/Check; the YAML decoder is put into strict mode before Decode (protocol obligation); "
+       "struct tags are checked structurally. Reload: the served *Dir pointer is either unchanged or the freshly loaded object whose Check returned nil, no field of any pre-existing Dir object is written "
+       "(heap frame), the hooks caller is told the new base dir only then.",
+  note="Assumed: yaml.v3 fills the struct by tag and reports unknown keys in strict mode; hasher objects are immutable after construction. Not decided: the schedule clause (signals at any point, any number): reload runs "
+       "inside the single dispatcher goroutine (call-graph fact), which is the basis for 'requests in flight see entirely old or entirely new'. Resource exhaustion from huge memory/cost values is outside the model.",
+  design="3 C18"),
 }
 
 NOT_APPLICABLE = {
